@@ -1275,7 +1275,7 @@ pub fn check_c05(obs: &Observation) -> V {
     }
     // the map lane `om` of the pair agent: values with the empty encoding (None)
     if obs.cfg.extra == "pair-agent" && obs.cfg.restart {
-        if let Some(id) = id_of("om") {
+        if let Some(id) = id_of("O") {
             let restored = obs.truth2.iter().find_map(|(_, t)| if let Truth::Custom(c) = t { c.strip_prefix("start:om=").map(|x| x.to_string()) } else { None });
             if let Some(restored) = restored {
                 let mut want: Vec<(i32, String)> = state
